@@ -155,6 +155,30 @@ def promised_name(conv, reg_as, decl_name, pyname):
     return tr(n)
 
 
+# ---- can the promised keyword name be WRITTEN as `name => value`? (transcription of the lexer's rule for words) -----
+
+_KW_RE = None
+
+
+def operator_words():
+    """the words the lexers of the default and of the legacy factory take out of KEYWORD_STRING"""
+    from yaql.language import factory
+    from yaql import legacy
+    words = {'true', 'false', 'null'}
+    for fac in (factory.YaqlFactory(), legacy.YaqlFactory()):
+        words.update(r[0] for r in fac.operators if len(r) > 1 and isinstance(r[0], str))
+    return words
+
+
+def spellable(kw, words):
+    """identifier-shaped, not starting with `__`, no operator word / constant"""
+    global _KW_RE
+    if _KW_RE is None:
+        import re
+        _KW_RE = re.compile(r'(?!__)[^\W\d]\w*\Z')
+    return bool(_KW_RE.match(kw)) and kw not in words
+
+
 # ---- contexts of every convention ---------------------------------------------------------------------------
 
 CONVS = ('camel', 'python', 'none')
@@ -241,6 +265,7 @@ def _opt(s):
 @pyfacts.generator('RegistryConv')
 def gen_registry_conv():
     rows, seen, per_ctx, bad = [], set(), [], []
+    words, unspellable = operator_words(), []
     for sc, ctxs in dump_scenarios():
         for i, c in enumerate(ctxs):
             per_ctx.append('%s[%d]=%s:%d' % ('>'.join(x[0] for x in sc), i, c['conv'], len(c['defs'])))
@@ -254,6 +279,11 @@ def gen_registry_conv():
                 if key in seen:
                     continue
                 seen.add(key)
+                for p in d['params']:
+                    if not p['hidden'] and p['key'] not in ('*', '**'):
+                        for kw in {promised_kw(c['conv'], p['decl'], p['name']), p['alias'] or p['name']}:
+                            if not spellable(kw, words) and [c['conv'], d['reg'], kw] not in unspellable:
+                                unspellable.append([c['conv'], d['reg'], kw])
                 ps = ['{ name := %s, declAlias := %s, seenAlias := %s, hidden := %s, star := %s }' % (
                     lchars(p['name']), _opt(p['decl']), _opt(p['alias']), 'true' if p['hidden'] else 'false',
                     'true' if p['key'] in ('*', '**') else 'false') for p in d['params']]
@@ -267,7 +297,7 @@ def gen_registry_conv():
             'namespace Yaql.Gen.RegistryConv\nopen Yaql.Naming\n\n'
             'def convRows : List CRow := [\n%s\n]\n\nend Yaql.Gen.RegistryConv\n') % (len(rows), ',\n'.join(rows))
     changed = pyfacts.emit('RegistryConv', body)
-    return dict(rows=len(rows), contexts=per_ctx, rows_off_the_rule=bad, rewritten=changed)
+    return dict(rows=len(rows), contexts=per_ctx, rows_off_the_rule=bad, unspellable=unspellable[:40], rewritten=changed)
 
 
 @pyfacts.generator('Registry')
